@@ -12,7 +12,7 @@ for d in sorted(glob.glob("/verif/seeded/*")):
     diff = open(f"{d}/patch.diff").read()
     files = sorted(set(re.findall(r"^\+\+\+ b/src/classy_blocks/(\S+)", diff, re.M)))
     notes = meta.get("needs_to_manifest", "")
-    first = "missed" if sid in FIRST_MISSED else (f"only by {FIRST_OTHER[sid]}" if sid in FIRST_OTHER else "reported")
+    first = "missed" if sid in FIRST_MISSED else (f"only by {FIRST_OTHER[sid]}" if sid in FIRST_OTHER else meta.get("first_pass", "reported"))
     meta["first_pass"] = first
     json.dump(meta, open(f"{d}/meta.json", "w"), indent=1)
     now = "; ".join(f"{p}: {', '.join(r.split('.', 1)[1] for r in v['rules'])}" for p, v in sorted(meta.get("checks_reporting", {}).items()) if v.get("rules"))
